@@ -1,73 +1,138 @@
-(* C10  Include resolution equals graph reachability, with exact cycle verdicts. *)
-From HL Require Import Lib.Bytes Model.Loader Spec.LoaderSpec Tie.C10 Proofs.LoaderProofs Proofs.LoaderTraversal.
+(* C10  Include resolution equals graph reachability, with exact cycle verdicts.
+   Against the pinned tree the cycle clause and the depth clause were refuted (a file reached again
+   off the inclusion path was reported as a cycle; the depth limit counted the files seen so far and
+   its error carried no directive); both were repaired in /repo and the model follows the repaired
+   loader.  All statements below are for ALL file systems, include graphs (cyclic ones, diamonds,
+   globs, self includes, dangling targets), limits, and coherent caches (every cache entry is the
+   file as the file system holds it: an invariant of every history, C11). *)
+From HL Require Import Lib.Bytes Model.Loader Spec.LoaderSpec Tie.C10 Proofs.LoaderGraph Proofs.LoaderProofs Proofs.LoaderTraversal.
 Open Scope N_scope.
 
-(* "A cycle diagnostic is attached to an include exactly when following it re-enters a file
-   currently being included; a file reached twice along different acyclic paths is not an
-   error" — as a statement about the loader model and the stack-based reference traversal: *)
-Theorem C10_cycles_exact_refuted : ~ C10_cycles_exact_statement.
-Proof. exact cycles_exact_refuted. Qed.
-Print Assumptions C10_cycles_exact_refuted.
+(* The loader IS the stack-based reference traversal (a cycle is an include of a file currently
+   being included; a file reached again otherwise is skipped silently; missing, oversized and
+   too-deep includes are refused one by one): same order, same diagnostics in the same order,
+   same set of loaded files -- whatever the cache holds. *)
+Theorem C10_loader_is_the_reference_traversal : forall fs L cache0 root override,
+  coherent fs L cache0 ->
+  root_refines fs L (load_root fs L cache0 root override) (ref_root fs L root override).
+Proof. exact load_root_refines. Qed.
+Print Assumptions C10_loader_is_the_reference_traversal.
 
-(* witness 1 (diamond): a spurious cycle on the second path; the loaded set still equals the
-   reachable set, each file once *)
-Theorem C10_refuted_diamond :
-  exists m r, load_root diamond big [] 0 None = Some m /\ ref_root diamond big 0 None = Some r /\
-    ro_deep r = false /\ o_errs m = [mkErr ECycle 3 22] /\ ro_errs r = [] /\
-    option_map r_order (o_res m) = Some [1; 3; 2] /\ ro_order r = [1; 3; 2].
-Proof. exact diamond_reports_cycle. Qed.
-Print Assumptions C10_refuted_diamond.
-
-(* witness 2: the same file included twice from one file *)
-Theorem C10_refuted_double_include :
-  exists m, load_root double_inc big [] 0 None = Some m /\ o_errs m = [mkErr ECycle 1 3].
-Proof. exact double_include_reports_cycle. Qed.
-Print Assumptions C10_refuted_double_include.
-
-(* witness 3: "too deep" is a count of files seen, reported without the directive's line, and
-   it drops a sibling that is only at depth 1 *)
-Theorem C10_refuted_depth_limit :
-  exists m r, load_root siblings (mkLim 10485760 2) [] 0 None = Some m /\
-    ref_root siblings (mkLim 10485760 2) 0 None = Some r /\
-    o_errs m = [mkErr ETooDeep 2 0] /\ ro_errs r = [] /\ ro_order r = [1; 2] /\
-    option_map r_order (o_res m) = Some [1].
-Proof. exact depth_is_a_count. Qed.
-Print Assumptions C10_refuted_depth_limit.
-
-(* root-level verdicts hold for every file system, limit and cache *)
-Theorem C10_root_missing : forall fs L c root,
-  flookup root fs = None ->
-  load_root fs L c root None = Some (mkOut None [mkErr ENotFound root 0] (mkLS [] c) [] []).
-Proof. exact root_missing. Qed.
-Print Assumptions C10_root_missing.
-
-Theorem C10_root_too_large : forall fs L c root f,
-  flookup root fs = Some f -> (max_size L <? f_size f) = true ->
-  load_root fs L c root None = Some (mkOut None [mkErr ETooLarge root 0] (mkLS [] c) [] []).
-Proof. exact root_too_large. Qed.
-Print Assumptions C10_root_too_large.
-
-(* for ALL file systems, include graphs (cyclic ones, globs, self includes), limits and coherent caches
-   (every cache entry is the file as the file system holds it: an invariant of every history, C11):
-   resolution terminates -- the driver's fuel |files| + 2 is never exhausted, because every
-   recursive call marks a file that was not marked before ... *)
+(* resolution terminates: the driver's fuel |files| + 2 is never exhausted, because every
+   recursive call marks a file that was not marked before *)
 Theorem C10_terminates : forall fs L cache0 root override,
   coherent fs L cache0 -> load_root fs L cache0 root override <> None.
 Proof. exact load_root_total. Qed.
 Print Assumptions C10_terminates.
 
-(* ... and it is sound with respect to graph reachability: every file in the resolved order is
-   reachable from the journal being loaded through include directives (of files as read from the
-   file system), whatever the (coherent) cache holds and whatever the limits are.  The converse (every
-   reachable file is loaded) is what the refutations above and C11's findings are about. *)
-Theorem C10_resolved_files_are_reachable : forall fs L cache0 root override out r f,
-  coherent fs L cache0 ->
-  match override with Some g => Some g | None => flookup root fs end = Some f ->
-  load_root fs L cache0 root override = Some out -> o_res out = Some r ->
-  forall x, In x (r_order r) -> reach fs (f_dirs f) x.
+(* each file once *)
+Theorem C10_each_file_once : forall fs L cache0 root override f out res,
+  coherent fs L cache0 -> root_file fs L root override f ->
+  load_root fs L cache0 root override = Some out -> o_res out = Some res ->
+  NoDup (r_order res) /\ ~ In root (r_order res).
+Proof. exact load_root_each_once. Qed.
+Print Assumptions C10_each_file_once.
+
+(* only reachable (and existing) files are loaded; every diagnostic sits on a directive, in the
+   root or in a file reachable from it, that names the diagnostic's target (a glob without match is
+   reported with the sentinel target); and a cycle diagnostic names a file that is reachable from
+   itself: the root through its own directives, or a file through the directives it has on disk *)
+Theorem C10_resolved_files_are_reachable_and_diagnostics_attached : forall fs L cache0 root override f out,
+  coherent fs L cache0 -> root_file fs L root override f ->
+  load_root fs L cache0 root override = Some out ->
+  (forall res x, o_res out = Some res -> In x (r_order res) -> reach fs (f_dirs f) x /\ exists g, flookup x fs = Some g) /\
+  (forall e, In e (o_errs out) ->
+     (e_kind e = ENotFound /\ e_target e = 999999) \/
+     (attached fs (f_dirs f) (e_target e) (e_line e) /\
+      (e_kind e = ECycle -> e_target e = root \/ exists g, flookup (e_target e) fs = Some g /\ reach fs (f_dirs g) (e_target e)))).
 Proof. exact load_root_sound. Qed.
-Print Assumptions C10_resolved_files_are_reachable.
+Print Assumptions C10_resolved_files_are_reachable_and_diagnostics_attached.
+
+(* "a file reached twice along different acyclic paths is not an error": if no reachable file
+   (nor the root) can reach itself, there is no cycle diagnostic at all *)
+Theorem C10_no_cycle_diagnostic_without_a_cycle : forall fs L cache0 root override f out,
+  coherent fs L cache0 -> root_file fs L root override f ->
+  load_root fs L cache0 root override = Some out ->
+  ~ reach fs (f_dirs f) root ->
+  (forall x g, reach fs (f_dirs f) x -> flookup x fs = Some g -> ~ reach fs (f_dirs g) x) ->
+  forall e, In e (o_errs out) -> e_kind e <> ECycle.
+Proof. exact load_root_no_spurious_cycle. Qed.
+Print Assumptions C10_no_cycle_diagnostic_without_a_cycle.
+
+(* "a missing, oversized or too-deep include ... does not stop the remaining includes from
+   loading": every include of the root and of every loaded file is loaded, or carries a diagnostic
+   of its own kind on its own line (a glob without match: a not-found diagnostic on its line) *)
+Theorem C10_every_include_is_loaded_or_diagnosed : forall fs L cache0 root override f out res,
+  coherent fs L cache0 -> root_file fs L root override f ->
+  load_root fs L cache0 root override = Some out -> o_res out = Some res ->
+  items_closed (dir_items fs (f_dirs f)) (visited (o_st out)) (o_errs out) /\
+  (forall x, In x (r_order res) -> exists g, flookup x fs = Some g /\
+     items_closed (dir_items fs (f_dirs g)) (visited (o_st out)) (o_errs out)).
+Proof. exact load_root_closed. Qed.
+Print Assumptions C10_every_include_is_loaded_or_diagnosed.
+
+(* hence reachability both ways: when nothing is refused for being missing, too large or too deep
+   (cycle diagnostics are allowed), exactly the reachable files are loaded.  (The root's directives
+   are those of the text being loaded; the side condition says that the file system's copy of the
+   root, if some include leads back to it, has the same includes.) *)
+Theorem C10_reachable_files_are_loaded : forall fs L cache0 root override f out res,
+  coherent fs L cache0 -> root_file fs L root override f ->
+  load_root fs L cache0 root override = Some out -> o_res out = Some res ->
+  (forall g, flookup root fs = Some g -> dir_items fs (f_dirs g) = dir_items fs (f_dirs f)) ->
+  (forall e, In e (o_errs out) -> e_kind e = ECycle) ->
+  forall x, reach fs (f_dirs f) x -> x = root \/ In x (r_order res).
+Proof. exact load_root_complete. Qed.
+Print Assumptions C10_reachable_files_are_loaded.
+
+(* root-level verdicts hold for every file system, limit and cache *)
+Theorem C10_root_missing : forall fs L c root,
+  flookup root fs = None ->
+  load_root fs L c root None = Some (mkOut None [mkErr ENotFound root 0] (mkLS [] [] c) [] []).
+Proof. exact root_missing. Qed.
+Print Assumptions C10_root_missing.
+
+Theorem C10_root_too_large : forall fs L c root f,
+  flookup root fs = Some f -> (max_size L <? f_size f) = true ->
+  load_root fs L c root None = Some (mkOut None [mkErr ETooLarge root 0] (mkLS [] [] c) [] []).
+Proof. exact root_too_large. Qed.
+Print Assumptions C10_root_too_large.
 
 Theorem C10_fresh_loader_is_coherent : forall fs L, coherent fs L [].
 Proof. exact coherent_nil. Qed.
 Print Assumptions C10_fresh_loader_is_coherent.
+
+(* non-vacuity, on the graphs that used to be refutation witnesses: *)
+(* the diamond 0 -> 1, 2 ; 1 -> 3 ; 2 -> 3 loads 1, 3, 2 and reports nothing *)
+Theorem C10_sample_diamond :
+  exists m, load_root diamond big [] 0 None = Some m /\ o_errs m = [] /\
+    option_map r_order (o_res m) = Some [1; 3; 2].
+Proof. exact diamond_is_not_a_cycle. Qed.
+Print Assumptions C10_sample_diamond.
+
+Theorem C10_sample_double_include :
+  exists m, load_root double_inc big [] 0 None = Some m /\ o_errs m = [] /\
+    option_map r_order (o_res m) = Some [1].
+Proof. exact double_include_loads_once. Qed.
+Print Assumptions C10_sample_double_include.
+
+(* two siblings at depth 1 under a limit of 2 are both loaded ... *)
+Theorem C10_sample_depth_limit_siblings :
+  exists m, load_root siblings (mkLim 10485760 2) [] 0 None = Some m /\ o_errs m = [] /\
+    option_map r_order (o_res m) = Some [1; 2].
+Proof. exact depth_is_a_path_length. Qed.
+Print Assumptions C10_sample_depth_limit_siblings.
+
+(* ... a grandchild is refused on the directive that names it (line 12 of file 1), and the root's
+   next include is still loaded *)
+Theorem C10_sample_too_deep :
+  exists m, load_root chain (mkLim 10485760 2) [] 0 None = Some m /\ o_errs m = [mkErr ETooDeep 2 12] /\
+    option_map r_order (o_res m) = Some [1; 3].
+Proof. exact too_deep_on_its_directive. Qed.
+Print Assumptions C10_sample_too_deep.
+
+(* a real cycle 0 -> 1 -> 2 -> 1 is reported on the directive that closes it *)
+Theorem C10_sample_cycle :
+  exists m, load_root looped big [] 0 None = Some m /\ o_errs m = [mkErr ECycle 1 22] /\
+    option_map r_order (o_res m) = Some [1; 2].
+Proof. exact cycle_is_reported_where_it_closes. Qed.
+Print Assumptions C10_sample_cycle.
